@@ -165,7 +165,9 @@ theorem did_deliver_never_panics (dec : Bytes → Option Bytes) (cr : Did.Crypto
         · rfl
         · split
           · rfl
-          · split <;> rfl
+          · split
+            · split <;> rfl
+            · rfl
     cases m with
     | create did doc db vm sig fr =>
       simp only [Did.validateBasic] at hv
